@@ -590,9 +590,11 @@ func (c *handlerCtx) bindReply(header Header) interface{} {
 
 	// unlock: handleReply
 	c.callCmd.mu.Lock()
-	if c.callCmd.hasReply() {
+	if c.callCmd.hasReply() || c.callCmd.isDone() {
 		// a reply to this call has already been received (it is being
-		// handled or the call is done): ignore the duplicate frame
+		// handled or the call is done), or the call has already completed
+		// without one (rejected by a pre-write plugin, write failure):
+		// ignore the frame
 		c.callCmd.mu.Unlock()
 		c.callCmd = nil
 		Warnf("repeated reply for call cmd: %v", c.input)
@@ -868,6 +870,16 @@ func (c *callCmd) cancel(reason string) {
 	close(c.doneChan)
 	// free count call-launch
 	c.sess.graceCallCmdWaitGroup.Done()
+}
+
+// isDone reports whether the call has completed.
+func (c *callCmd) isDone() bool {
+	select {
+	case <-c.doneChan:
+		return true
+	default:
+		return false
+	}
 }
 
 // if callCmd.inputMeta!=nil, means the callCmd is replyed.
